@@ -534,6 +534,11 @@ def _run_witness(qual, wit, R, c, b, out):
             if isinstance(e, (SystemExit, GeneratorExit)):
                 raise
             raised = e
+        if isinstance(raised, AttributeError) and "has no attribute" in str(raised):
+            # the object graph is built from the declared shapes only: the real code read an attribute that is in no
+            # shape (an artifact of the replay, not a behaviour of the code under its contract)
+            out.update(verdict="skipped", why="the replayed objects lack an attribute the real code reads: %s" % raised)
+            return out
         failed = nc.check_after(env, comp, rcomp, result, raised)
     except Exception as e:
         out.update(verdict="skipped", why="replay harness error: %r" % (e,), trace=traceback.format_exc()[-1500:])
